@@ -92,7 +92,7 @@ func c19DrawPattern(t *rapid.T, id int, prev []*c19Pat) *c19Pat {
 	for i := range b {
 		b[i], m[i] = c19Byte(t, "b"), c19Byte(t, "m")
 	}
-	if m[n-1] == 0 && rapid.IntRange(0, 3).Draw(t, "fixlast") != 0 {
+	if m[n-1] == 0 {
 		m[n-1] = 0x80
 	}
 	if rapid.IntRange(0, 23).Draw(t, "malformed") == 0 {
